@@ -161,7 +161,8 @@ def post_C15(agg, info):
 META["C15"] = {
     "level": "exploration",
     "rule": "random call schedules of 20-200 PRF / PermutationFromPRF evaluations over 1-4 keys (incl. all-zero and one-bit-apart keys), "
-            "counters incl. 0 and 2^64-1, output types from 1 bit to 2000 bytes and nested containers, spread over 3 evaluator "
+            "counters incl. 0, 2^64-1 and runs of neighbouring counters, output types from 1 bit to 9.6 KB and nested containers, spread over 3 "
+            "evaluator instances; relation monitor: no 16-byte window shared between the answers of different (key, counter) pairs; 3 evaluator "
             "instances; PRNG scripts replayed from the same seed; Random/RandomPermutation nodes; a case is one schedule / script; "
             "non-trivial = at least 2 distinct (key, counter, type) triples observed; distinct by hash of schedule parameters. "
             "Statistics: byte histograms, all n! outcomes of permutations n=2..5, position-wise uniformity n=6..8, three-thirds "
@@ -257,7 +258,9 @@ META["C09"] = {
             "tuples/vectors, call/iterate, truncation, Random/PRF, gather, permutation utilities, sort, segment cumsum, switching-map "
             "helpers, print/assert) built by trial through the real add_node; about one proposal in three is rejected by type inference; "
             "inputs uniform / extreme, index-like constants both valid and invalid; a case is one graph; non-trivial = at least 3 "
-            "accepted operations and at least one completed evaluation; distinct by structural hash",
+            "accepted operations and at least one completed evaluation; distinct by structural hash. One proposal in eight is a deliberate near "
+            "miss of a shape-sensitive operation, one in 24 a Reshape between arbitrary container types (leaves regrouped, single leaves "
+            "reshaped, near misses in scalar type / element count / leaf count)",
     "assumptions": COMMON_ASSUMPTIONS + [
         "online type monitor: Value::check_type(node type) plus an independent layout check on every node value",
         "an evaluation Err is accepted only when raised by a data-dependent operation (VectorGet, permutation / gather index validity, "
@@ -274,7 +277,8 @@ META["C06"] = {
     "level": "translation_validation",
     "rule": "fully inlined graphs from G_inl (4-18 operations: foldable constant expressions, tuple / vector / zip / array-to-vector "
             "proxies with getters, A2B/B2A chains incl. sign-changing ones followed by Truncate, duplicated sub-expressions with and "
-            "without annotations, dangling nodes, unused and named inputs, NOP[Send] nodes, Random / PRF nodes) given to "
+            "without annotations, dangling nodes, unused and named inputs, NOP[Send] nodes (also over constant expressions), the same binary "
+            "operation with swapped operands, Random / PRF nodes) given to "
             "optimize_context; a case is one graph; non-trivial = the optimizer folded, merged or removed at least one node; distinct "
             "by structural hash",
     "assumptions": COMMON_ASSUMPTIONS + [
@@ -407,11 +411,11 @@ META["C05"] = {
 
 META["C18"] = {
     "level": "exploration",
-    "rule": "plaintext Sort on tables with 1..12 rows x key widths 1..10 bits (every combination in rotation), keys drawn from 1-3 distinct "
+    "rule": "plaintext Sort on tables with 1..12 rows (one in 60: 40-700 rows) x key widths 1..10 bits (every combination in rotation), keys drawn from 1-3 distinct "
             "values / uniform / already sorted / reversed, 0-2 payload columns of any scalar type and rank 1-3, key column at any "
             "position; SortByIntegerKey over all 11 key types incl. negative keys; permutations: all n! for n <= 5 and random ones up to "
             "12 through apply / apply-inverse / inverse_permutation round trips; compiled Sort, SortByIntegerKey and ApplyPermutation "
-            "under random owner / output / inline configurations executed by one evaluator and by three parties; a case is one table "
+            "(1-8 rows, one in 40: 24-160 rows) under random owner / output / inline configurations executed by one evaluator and by three parties; a case is one table "
             "or permutation; non-trivial = at least 2 rows; distinct by hash of (type, contents / configuration)",
     "assumptions": COMMON_ASSUMPTIONS + [
         "oracle = Rust's stable sort on row indices by the key (bit strings compared lexicographically from index 0; integer keys by "
@@ -430,7 +434,8 @@ META["C19"] = {
             "row shapes (scalar, vector, matrix per row), renamed or equally named key headers, disjoint / partial / full key overlap, "
             "0-2 payload columns per table, column order and null-column position shuffled; 4 join types x {unmasked, masked (key and "
             "payload masks)}; compiled joins under owner classes private-private / private-public / public-private with random output "
-            "lists and inline modes, executed by one evaluator and by three parties; a case is one pair of tables (and configuration); "
+            "lists and inline modes, executed by one evaluator and by three parties; phase compiled_dense: both tables private, 256-520 rows, the "
+            "second one >= 512 (the protocol then sizes its cuckoo table at 2-4 slots per row), one scalar key column; a case is one pair of tables (and configuration); "
             "non-trivial = at least 3 rows in total (plaintext) / at least one private table (compiled); distinct by hash of (types, draw)",
     "assumptions": COMMON_ASSUMPTIONS + [
         "oracle for plaintext joins = an independent relational join written from the Graph::join / join_with_column_masks "
@@ -451,7 +456,8 @@ META["C20"] = {
     "level": "exploration",
     "rule": "swept input arrays per operation and configuration: NewtonInversion (5 (iterations, cap) settings, signed / unsigned, with and "
             "without an initial approximation) over (0, 2^(cap-1)); InverseSqrt over (0, min(2^(2cap-1), 2^21)); GoldschmidtDivision over "
-            "divisor sweeps x 9 dividends; TaylorExponent and ApproxExponent (p = 8, 10, 12) on x/2^p in [-9.8, 9.8]; ApproxSigmoid / "
+            "divisor sweeps x 9 dividends; ApproxExponent (p = 10) on x/2^p in [-9.8, 9.8]; TaylorExponent (p = 10, 12) on [-12, (31-p) ln 2) incl. "
+            "both sides of every power-of-two boundary of x/ln2; ApproxSigmoid / "
             "ApproxGelu on [-12, 12] / [-8, 8] incl. every bucket boundary +-1; FixedMultiply exact on 14x14 operand pairs; thorough "
             "enumerates every grid point (stride 1), quick strides the middle of large domains but keeps both ends dense; compiled "
             "versions on 64 sampled points each; a case is one chunk of <= 4096 points; all non-trivial; distinct by (sweep, chunk)",
@@ -500,7 +506,8 @@ def post_C03(agg, info):
 
 META["C03"] = {
     "level": "exploration",
-    "rule": "exact mode: random bit circuits (2-3 one-bit inputs, 1-4 gates from AND / XOR / NOT) x owner vectors over {0,1,2,public} x all 13 "
+    "rule": "exact mode: random bit circuits (2-3 one-bit inputs, 1-4 gates from AND / XOR / NOT; output = last gate or a tuple / vector / tuple getter "
+            "over the last gate and other wires) x owner vectors over {0,1,2,public} x all 13 "
             "output lists, compiled and executed by three parties with the PRF idealised as a tape; every tape (<= 12 / 16 bits) is "
             "enumerated for every input assignment and, per observer, the view histograms of assignments in the same (own inputs, own "
             "output) class must be identical, repeated for 2 / 4 conditioning seeds of single-party junk randomness; sampled mode: 9 "
